@@ -1,4 +1,5 @@
 import BstreamVerif.Lemmas.ForkInv
+import BstreamVerif.Lemmas.SentInv
 /-!
 One `processBlock` step preserves the invariant and is accepted by the push/pop consumer.
 -/
@@ -80,23 +81,36 @@ theorem processBlock_step (cfg : Config) (hnew : cfg.matches .new = true) (hundo
       Inv (processBlock cfg s b none).1 P' ∧
       (((processBlock cfg s b none).2.1 = [] ∧ (processBlock cfg s b none).1.lastSent = s.lastSent) ∨
        (s.db.find b.id = none ∧ triggers cfg s b = true ∧
-          ∃ l, (processBlock cfg s b none).1.lastSent = some l ∧ l.ref = b.ref)) := by
+          ∃ l, (processBlock cfg s b none).1.lastSent = some l ∧ l.ref = b.ref)) ∧
+      (∀ (U : Id → Option Blk) (F : List Id), UOK U → Inv2 U F s.db → U b.id = some b →
+        ∃ F', Inv2 U F' (processBlock cfg s b none).1.db) := by
   unfold processBlock
-  rcases plan_cases cfg s b hI.noInit hI.libNe with ⟨r, hr⟩ | ⟨hex, _, u, rd, j, hsw, hpl⟩
-  · rw [hr]; exact ⟨P, rfl, hI, Or.inl ⟨rfl, rfl⟩⟩
+  rcases plan_cases cfg s b hI.noInit hI.libNe with ⟨r, hr⟩ | ⟨hex, _, hnotdrop, u, rd, j, hsw, hpl⟩
+  · rw [hr]; exact ⟨P, rfl, hI, Or.inl ⟨rfl, rfl⟩, fun U F _ hJ _ => ⟨F, hJ⟩⟩
   obtain ⟨hf, hadd⟩ := fresh_of_addLink s.db b hI.wf hb hex
+  have hJ1 : ∀ (U : Id → Option Blk) (F : List Id), Inv2 U F s.db → U b.id = some b → Inv2 U F (appendBlk s.db b) := by
+    intro U F hJ hbU
+    apply inv2_append U F s.db hJ b hbU hf
+    rintro ⟨e, he, hes⟩ hlow
+    apply hnotdrop
+    refine ⟨hlow, ?_⟩
+    cases hls : s.lastSent with
+    | some l => rfl
+    | none =>
+      have := (hI.topNone hls).2 e he
+      rw [hes] at this; cases this
   have hal : afterLink s b = { s with db := appendBlk s.db b } := afterLink_eq s b hI.wf hb hex
   have hlibT : (afterLink s b).db.hasLIB = true := by rw [hal]; exact hasLIB_of_id _ hI.libNe
   rw [hpl, planLinked_hasLIB cfg _ b _ u rd j hlibT, hal]
   cases hc : computeLongestChain cfg { s with db := appendBlk s.db b } b with
   | none =>
-    refine ⟨P, rfl, inv_afterLink s P b none hI hb hB hf ?_, Or.inl ⟨rfl, rfl⟩⟩
+    refine ⟨P, rfl, inv_afterLink s P b none hI hb hB hf ?_, Or.inl ⟨rfl, rfl⟩, fun U F _ hJ hbU => ⟨F, hJ1 U F hJ hbU⟩⟩
     intro c cs h; cases h
   | some lc =>
     obtain ⟨hp, hn, hfa, htop, hlast⟩ := compute_chain_path cfg s P b hI hb hB hf lc hc
     cases lc with
     | nil =>
-      refine ⟨P, rfl, inv_afterLink s P b (some []) hI hb hB hf ?_, Or.inl ⟨rfl, rfl⟩⟩
+      refine ⟨P, rfl, inv_afterLink s P b (some []) hI hb hB hf ?_, Or.inl ⟨rfl, rfl⟩, fun U F _ hJ hbU => ⟨F, hJ1 U F hJ hbU⟩⟩
       intro c cs h; cases h
     | cons c0 cs0 =>
       have hcok : CacheOK { s with db := appendBlk s.db b, cache := some (c0 :: cs0) } := by
@@ -106,7 +120,7 @@ theorem processBlock_step (cfg : Config) (hnew : cfg.matches .new = true) (hundo
         exact ⟨hp, hn, hfa⟩
       have hI1 := inv_afterLink s P b (some (c0 :: cs0)) hI hb hB hf hcok
       cases htr : triggers cfg s b with
-      | false => exact ⟨P, rfl, hI1, Or.inl ⟨rfl, rfl⟩⟩
+      | false => exact ⟨P, rfl, hI1, Or.inl ⟨rfl, rfl⟩, fun U F _ hJ hbU => ⟨F, hJ1 U F hJ hbU⟩⟩
       | true =>
         simp only [if_true]
         rw [htr] at hsw
@@ -184,9 +198,9 @@ theorem processBlock_step (cfg : Config) (hnew : cfg.matches .new = true) (hundo
             rw [hfe] at hfb
             simp only [Option.map_some, Option.some.injEq] at hfb
             rw [hfb]; exact hL e1 hfe
-        obtain ⟨haf, han, t, Q', hevs, hrun, hI3⟩ :=
+        obtain ⟨haf, han, t, Q', hevs, hrun, hI3, hdbcase⟩ :=
           advance_inv cfg hirr a hef hen b _ hI2 eb.blk hlastSent hcr hlibok
-        refine ⟨Q', ?_, hI3, Or.inr ⟨hf, (by first | rfl | trivial), eb.blk, ?_, heblast.1⟩⟩
+        refine ⟨Q', ?_, hI3, Or.inr ⟨hf, (by first | rfl | trivial), eb.blk, ?_, heblast.1⟩, ?_⟩
         · show (⟨s.db.libRef.id, P⟩ : CS).run (finish (advanceAcc cfg a b none)).2.1 = _
           have : (finish (advanceAcc cfg a b none)).2.1 = a.evs ++ t := hevs
           rw [this, run_append, ← hs3lib, herun]
@@ -195,5 +209,18 @@ theorem processBlock_step (cfg : Config) (hnew : cfg.matches .new = true) (hundo
           exact hrun
         · show (advanceAcc cfg a b none).st.lastSent = some eb.blk
           rw [advanceAcc_lastSent]; exact hlastSent
+        · intro U F hU hJ hbU
+          show ∃ F', Inv2 U F' (advanceAcc cfg a b none).st.db
+          have hJ2 : Inv2 U F a.st.db := by
+            apply inv2_sent U F s3.db a.st.db hI1.wf (by rw [hs3db]; exact hJ1 U F hJ hbU) hsame
+              ((lcA ++ lcB).map (·.blk.id))
+            · rw [hs3lib, hs3db, ← hlc]; exact hp
+            · intro x hx
+              obtain ⟨e, he, rfl⟩ := List.mem_map.mp hx
+              exact hout.sentIn e he
+            · exact hout.sentOut
+          rcases hdbcase with hsame' | ⟨R, er, hdb', hfer, hnumR, hup⟩
+          · exact ⟨F, by rw [hsame']; exact hJ2⟩
+          · exact ⟨F ++ [R.id], by rw [hdb']; exact inv2_movePurge U hU F a.st.db hI2.wf hJ2 R cfg.kept er hfer hnumR hup⟩
 
 end BstreamVerif.Forkable
